@@ -43,6 +43,10 @@ SuppVert(kind, s) ==
       [] kind = 4 -> {<<c[1] + 1, c[2]>>, <<c[1] - 1, c[2]>>, <<c[1], c[2] + 1>>, <<c[1], c[2] - 1>>}  \* 1-norm ball
       [] kind = 5 -> BoxV(0, 3, 0, 3)                                      \* non-negative box
       [] kind = 6 -> IF s = 1 THEN {c} ELSE BoxV(c[1] - 1, c[1] + 1, c[2] - 1, c[2] + 1)   \* mixed
+      \* kind 7: the box of kind 2; scenarios 1 and 3 carry in addition the (there redundant) exponential-cone
+      \* constraint exp(z2) <= exp(c2 + 1): it lands in another list of the shared support model, and must not
+      \* be applied to the other scenarios
+      [] kind = 7 -> BoxV(c[1] - 1, c[1] + 1, c[2] - 1, c[2] + 1)
 
 \* ---------------------------------------------------------------- probability sets (vertices, weights / DEN)
 Perms3(a, b, c) == {<<a, b, c>>, <<a, c, b>>, <<b, a, c>>, <<b, c, a>>, <<c, a, b>>, <<c, b, a>>}
@@ -130,7 +134,7 @@ EventOfScen(part, s) == CASE part = 0 -> 1 [] part = 1 -> s [] part = 2 -> IF s 
 
 WellFormed(p) ==
     /\ (p.form = "B" => p.part = 0 /\ p.aff = "a0")
-    /\ (p.xint => p.form = "B")
+    /\ (p.xint => p.form = "B" /\ p.supp # 7)       \* exponential-cone supports need ECOS: continuous only
     /\ (p.ns = 1 => p.part = 0 /\ p.prob = 1)
     /\ (p.part = 2 => p.ns = 3)
     /\ Members(p) # {}
